@@ -10,7 +10,7 @@ import json
 import vlib
 from checks import search_common as sc
 
-META = {'text': "TLC explores binary detection Quit/Convert for every NUL position, strategy, capacity and read history; NoNulDelivered holds in every state; the set of streams the model allows per scenario is the envelope against which real runs are validated (trace inclusion), and no delivered line may hold a NUL under Quit.", 'note': 'Searcher-level part; bounds in specs/search/C14_*.cfg; hook H1 scales the slice sniff window.', 'technique': "TLA+ model of binary detection, TLC exploration + inclusion of observed streams in the model's behaviours"}
+META = {'text': "TLC explores binary detection Quit/Convert for every NUL position, strategy, capacity and read history; NoNulDelivered holds in every state; the set of streams the model allows per scenario is the envelope against which real runs are validated (trace inclusion), and no delivered line may hold a NUL under Quit. At rg level (BinaryPolicy.tla) the summary modes -c, -l, --files-without-match, -c --include-zero and --count-matches --include-zero are judged too: a traversed file with a NUL in the portion these modes examine is dropped whatever they would have said about it, an explicitly named one is not reported as empty when a line matches.", 'note': 'Searcher-level part; bounds in specs/search/C14_*.cfg; hook H1 scales the slice sniff window.', 'technique': "TLA+ model of binary detection, TLC exploration + inclusion of observed streams in the model's behaviours"}
 
 
 def main(tier):
